@@ -328,6 +328,81 @@ theorem unmakeList_next : ∀ (l : List Ast) (σ : Store), (unmakeList σ l).nex
     rw [unmakeList_next rest (unmake σ k), unmake_next k σ]
 end
 
+/-! ### frame of `_unmake_fst_tree`: what it does not write -/
+
+/-- `unlink σ a` leaves every other AST's `a.f` alone -/
+theorem unlink_astF_other (σ : Store) (a x : Nat) (h : x ≠ a) : (unlink σ a).astF x = σ.astF x := by
+  unfold unlink
+  split
+  · simp [upd, h]
+  · rfl
+
+/-- `unlink σ a` writes only the FST record `a.f` -/
+theorem unlink_fst_frame (σ : Store) (a g : Nat) (h : σ.astF a ≠ some g) : (unlink σ a).fst g = σ.fst g := by
+  unfold unlink
+  split
+  · next f hf =>
+    have : g ≠ f := fun e => h (e ▸ hf)
+    simp [upd, this]
+  · rfl
+
+/-- after `unlink` an AST has the FST it had, or none -/
+theorem unlink_astF_sub (σ : Store) (a x g : Nat) (h : σ.astF x ≠ some g) : (unlink σ a).astF x ≠ some g := by
+  unfold unlink
+  split
+  · simp only [upd]; split
+    · simp
+    · exact h
+  · exact h
+
+mutual
+theorem unmake_astF_sub : ∀ (t : Ast) (σ : Store) (x g : Nat), σ.astF x ≠ some g → (unmake σ t).astF x ≠ some g
+  | .mk a _ _ kids, σ, x, g, h => by
+    simp only [unmake]
+    exact unmakeList_astF_sub kids _ x g (unlink_astF_sub σ a x g h)
+theorem unmakeList_astF_sub : ∀ (l : List Ast) (σ : Store) (x g : Nat), σ.astF x ≠ some g →
+    (unmakeList σ l).astF x ≠ some g
+  | [], σ, x, g, h => by simpa [unmakeList] using h
+  | k :: rest, σ, x, g, h => by
+    simp only [unmakeList]
+    exact unmakeList_astF_sub rest _ x g (unmake_astF_sub k σ x g h)
+end
+
+mutual
+/-- `_unmake_fst_tree` writes `a.f` only for ASTs of the subtree -/
+theorem unmake_astF_frame : ∀ (t : Ast) (σ : Store) (x : Nat), x ∉ ids t → (unmake σ t).astF x = σ.astF x
+  | .mk a _ _ kids, σ, x, hx => by
+    simp only [ids, List.mem_cons, not_or] at hx
+    simp only [unmake]
+    rw [unmakeList_astF_frame kids (unlink σ a) x hx.2, unlink_astF_other σ a x hx.1]
+theorem unmakeList_astF_frame : ∀ (l : List Ast) (σ : Store) (x : Nat), x ∉ idsList l →
+    (unmakeList σ l).astF x = σ.astF x
+  | [], σ, x, _ => by simp [unmakeList]
+  | k :: rest, σ, x, hx => by
+    simp only [idsList, List.mem_append, not_or] at hx
+    simp only [unmakeList]
+    rw [unmakeList_astF_frame rest (unmake σ k) x hx.2, unmake_astF_frame k σ x hx.1]
+end
+
+mutual
+/-- `_unmake_fst_tree` writes only FST records that are the `a.f` of an AST of the subtree -/
+theorem unmake_fst_frame : ∀ (t : Ast) (σ : Store) (g : Nat), (∀ x ∈ ids t, σ.astF x ≠ some g) →
+    (unmake σ t).fst g = σ.fst g
+  | .mk a _ _ kids, σ, g, h => by
+    simp only [unmake]
+    rw [unmakeList_fst_frame kids (unlink σ a) g
+      (fun x hx => unlink_astF_sub σ a x g (h x (by simp [ids, hx])))]
+    exact unlink_fst_frame σ a g (h a (by simp [ids]))
+theorem unmakeList_fst_frame : ∀ (l : List Ast) (σ : Store) (g : Nat), (∀ x ∈ idsList l, σ.astF x ≠ some g) →
+    (unmakeList σ l).fst g = σ.fst g
+  | [], σ, g, _ => by simp [unmakeList]
+  | k :: rest, σ, g, h => by
+    simp only [unmakeList]
+    rw [unmakeList_fst_frame rest (unmake σ k) g
+      (fun x hx => unmake_astF_sub k σ x g (h x (by simp [idsList, hx])))]
+    exact unmake_fst_frame k σ g (fun x hx => h x (by simp [idsList, hx]))
+end
+
 /-! ### frames of `fstNew` / `makeKids` on fresh subtrees -/
 
 /-- what `makeKids`/`makeChild` may change when no AST of the subtree has an FST yet: only `astF` at ids of the
@@ -370,6 +445,38 @@ theorem linkedListB_congr (σ σ' : Store) (B : Nat) :
     exact ⟨linkedB_congr σ σ' B k pf (fun x hx => h1 x (by simp [idsList, hx]))
              (fun x hx => h2 x (by simp [idsList, hx])) h3 hl.1,
            linkedListB_congr σ σ' B rest pf (fun x hx => h1 x (by simp [idsList, hx]))
+             (fun x hx => h2 x (by simp [idsList, hx])) h3 hl.2⟩
+end
+
+mutual
+/-- `linkedB` only reads `astF` at ids of the tree and the FST records of those ASTs (predicate form) -/
+theorem linkedB_congrP (σ σ' : Store) (P : Nat → Prop) :
+    ∀ (t : Ast) (pf : Option Nat), (∀ x ∈ ids t, σ'.astF x = σ.astF x) →
+      (∀ x ∈ ids t, ∀ f, σ.astF x = some f → P f) → (∀ f, P f → σ'.fst f = σ.fst f) →
+      linkedB σ pf t = true → linkedB σ' pf t = true
+  | .mk a _ fld kids, pf, h1, h2, h3, hl => by
+    simp only [linkedB] at hl ⊢
+    have ha : σ'.astF a = σ.astF a := h1 a (by simp [ids])
+    rw [ha]
+    cases hf : σ.astF a with
+    | none => simp [hf] at hl
+    | some f =>
+      simp only [hf, Bool.and_eq_true] at hl ⊢
+      have hfB : P f := h2 a (by simp [ids]) f hf
+      rw [h3 f hfB]
+      refine ⟨hl.1, ?_⟩
+      exact linkedListB_congrP σ σ' P kids (some f)
+        (fun x hx => h1 x (by simp [ids, hx])) (fun x hx => h2 x (by simp [ids, hx])) h3 hl.2
+theorem linkedListB_congrP (σ σ' : Store) (P : Nat → Prop) :
+    ∀ (l : List Ast) (pf : Option Nat), (∀ x ∈ idsList l, σ'.astF x = σ.astF x) →
+      (∀ x ∈ idsList l, ∀ f, σ.astF x = some f → P f) → (∀ f, P f → σ'.fst f = σ.fst f) →
+      linkedListB σ pf l = true → linkedListB σ' pf l = true
+  | [], _, _, _, _, _ => by simp [linkedListB]
+  | k :: rest, pf, h1, h2, h3, hl => by
+    simp only [linkedListB, Bool.and_eq_true] at hl ⊢
+    exact ⟨linkedB_congrP σ σ' P k pf (fun x hx => h1 x (by simp [idsList, hx]))
+             (fun x hx => h2 x (by simp [idsList, hx])) h3 hl.1,
+           linkedListB_congrP σ σ' P rest pf (fun x hx => h1 x (by simp [idsList, hx]))
              (fun x hx => h2 x (by simp [idsList, hx])) h3 hl.2⟩
 end
 
